@@ -3,7 +3,7 @@
    before them).  Only statements, witnesses and Print Assumptions here. *)
 From Coq Require Import ZArith List Bool.
 From Verif Require Import Lib.Bytes Model.Ledger Proofs.LedgerBalance Proofs.LedgerInv Proofs.LedgerGroups
-  Proofs.LedgerDb Proofs.LedgerWitness.
+  Proofs.LedgerDb Proofs.LedgerWitness Proofs.LedgerDefault.
 Import ListNotations.
 Open Scope Z_scope.
 
@@ -303,6 +303,27 @@ Example delete_shared_refused :
   end.
 Proof. vm_compute. repeat split. Qed.
 
+(* Round 3 — a reading that names its account does not depend on the wallet's default account: balance(account_id=a),
+   utxos(account_id=a) of a wallet whose default account is d are those of the same ledger under any other default
+   (only an argument left EMPTY is replaced by the default: account 0 named explicitly stays account 0); the key
+   balances and the balance cache the call leaves behind are the same too. *)
+Theorem named_account_ignores_default : forall s a fn d,
+  snd (step s (BalanceOf (Some a) fn)) = snd (step (with_default_account s d) (BalanceOf (Some a) fn)) /\
+  (forall g mc, snd (step s (UtxosOf g mc)) = snd (step (with_default_account s d) (UtxosOf g mc))) /\
+  l_keys (fst (step s (BalanceOf (Some a) fn))) = l_keys (fst (step (with_default_account s d) (BalanceOf (Some a) fn))) /\
+  l_cache (fst (step s (BalanceOf (Some a) fn))) = l_cache (fst (step (with_default_account s d) (BalanceOf (Some a) fn))).
+Proof. exact named_account_ignores_default_proof. Qed.
+
+(* a wallet with default account 1 holding 100 in account 0 and 50 in account 1: the named reading of account 0 is 100
+   under either default, the unnamed reading follows the default (so the name is what matters) *)
+Example named_account_ok :
+  snd (step two_accounts (BalanceOf (Some 0) None)) = OBal 100 /\
+  snd (step (with_default_account two_accounts 0) (BalanceOf (Some 0) None)) = OBal 100 /\
+  snd (step two_accounts Balance) = OBal 50 /\
+  snd (step (with_default_account two_accounts 0) Balance) = OBal 100 /\
+  map u_value (utxos two_accounts (0, 0) 0) = [100] /\ map u_value (utxos two_accounts (l_default two_accounts) 0) = [50].
+Proof. exact named_account_example. Qed.
+
 Print Assumptions inv_init.
 Print Assumptions inv_step.
 Print Assumptions inv_reachable.
@@ -324,3 +345,4 @@ Print Assumptions other_wallets_untouched.
 Print Assumptions other_wallets_only_marked.
 Print Assumptions other_wallets_untouched_isolated.
 Print Assumptions delete_reopens_only_its_inputs.
+Print Assumptions named_account_ignores_default.
